@@ -335,6 +335,58 @@ pub fn gen_module(r: &mut Rng) -> (String, bool, Vec<&'static str>) {
     (m, mm, feats)
 }
 
+/// the same module with every local declaration `(n, T)`, n >= 2, written as two neighbouring declarations `(a, T) (n - a, T)`:
+/// a valid binary form that text-to-binary tools never emit (they merge runs)
+fn split_local_runs(wasm: &[u8], r: &mut Rng) -> Option<Vec<u8>> {
+    use wasm_encoder::reencode::Reencode;
+    use wasmparser::{Parser, Payload};
+    let mut rr = wasm_encoder::reencode::RoundtripReencoder;
+    let mut code = wasm_encoder::CodeSection::new();
+    let mut any = false;
+    for p in Parser::new(0).parse_all(wasm) {
+        if let Payload::CodeSectionEntry(b) = p.ok()? {
+            let mut locals: Vec<(u32, wasm_encoder::ValType)> = vec![];
+            let lr = b.get_locals_reader().ok()?;
+            for l in lr {
+                let (n, t) = l.ok()?;
+                let t = rr.val_type(t).ok()?;
+                if n >= 2 {
+                    let a = 1 + r.below((n - 1) as usize) as u32;
+                    locals.push((a, t));
+                    locals.push((n - a, t));
+                    any = true;
+                } else {
+                    locals.push((n, t));
+                }
+            }
+            let mut f = wasm_encoder::Function::new(locals);
+            let ops = b.get_operators_reader().ok()?;
+            let mut br = ops.get_binary_reader();
+            let rest = br.read_bytes(br.bytes_remaining()).ok()?;
+            f.raw(rest.iter().copied());
+            code.function(&f);
+        }
+    }
+    if !any {
+        return None;
+    }
+    let mut m = wasm_encoder::Module::new();
+    for p in Parser::new(0).parse_all(wasm) {
+        let p = p.ok()?;
+        if let Payload::CodeSectionEntry(_) = p {
+            continue;
+        }
+        if let Some((id, range)) = p.as_section() {
+            if id == 10 {
+                m.section(&code);
+            } else {
+                m.section(&wasm_encoder::RawSection { id, data: &wasm[range] });
+            }
+        }
+    }
+    Some(m.finish())
+}
+
 fn fixtures() -> Vec<std::path::PathBuf> {
     let mut v = vec![];
     let mut stack = vec![std::path::PathBuf::from("/repo/tests/test_inputs")];
@@ -396,7 +448,17 @@ pub fn run(ctx: &mut Ctx) {
                 ctx.count(&format!("feature={ft}"));
             }
             match wat::parse_str(&text) {
-                Ok(b) => (b, mm, format!("zoo:{}", feats.join("+"))),
+                Ok(b) => {
+                    // one generated module in three gets its local declarations split into neighbouring runs of one type
+                    let split = if r.chance(1, 3) { split_local_runs(&b, &mut r) } else { None };
+                    match split {
+                        Some(b2) => {
+                            ctx.count("local-declarations=split-runs");
+                            (b2, mm, format!("zoo:{}+split-local-runs", feats.join("+")))
+                        }
+                        None => (b, mm, format!("zoo:{}", feats.join("+"))),
+                    }
+                }
                 Err(e) => panic!("roundtrip: fragment text does not parse: {e}\n{text}"),
             }
         };
